@@ -321,4 +321,48 @@ theorem C01_bootrewrite_counterexample : ¬ NoWrongOwner_Full cfgBootRewrite := 
   cases ho
   exact absurd hw (by decide)
 
+/-! ## `(pid, None)` identities — CHARACTERISATION outside the property's quantifier
+
+C01 quantifies over histories of process creation, exit, reaping and PID reuse with psutil calls in between
+(`HistOK`: every theorem above).  It does not speak about `/proc/pid/stat` becoming unreadable (hidepid
+mounts, LSMs): then `Process._init` swallows AccessDenied and keeps `_ident = (pid, None)` (Model: `mkObj`,
+`Kernel.hidden`; Props/C02.lean: `C02_unknown_start_meaning`), and the reuse guard compares `None` with
+`None`.  The statement below — `C01_no_wrong_owner` for histories in which stat files may be hidden — is
+false; its witness is replayed on the real code by the check (corpus `unknown-start-recycled`). -/
+
+/-- histories that may hide `/proc/pid/stat`: only "the published boot time is never 0" is asked -/
+def HistAnyReadability (h : List Ev) : Prop := ∀ e ∈ h, ∀ b, e = .k (.setBtime b) → b ≠ 0
+
+def NoWrongOwner_AnyReadability_Full (c : Cfg) : Prop :=
+  ∀ (b0 : Nat), b0 ≠ 0 → ∀ (h : List Ev), HistAnyReadability h →
+    ∀ e ∈ (run c (St.init b0) h).log, EffOK (run c (St.init b0) h).ps.objs e
+
+/-- PID 7's stat is unreadable when the object is built (`_ident = (7, None)`); the process ends, PID 7 is taken
+    by another process whose stat is unreadable too; kill() -/
+def witnessUnknownStart : List Ev :=
+  [.k (.spawn 7), .k (.hide 7 true), .c (.newObj 7), .k (.reap 7), .k (.spawn 7), .c (.signal 0 .kill)]
+
+/-- **C01_unknown_start_counterexample** (characterisation, not a defect against C01 as stated).  With the
+    configuration extracted from the source: an object whose start time could not be read passes the reuse
+    guard whenever the current holder of the PID is unreadable as well — `witnessUnknownStart` delivers SIGKILL
+    to incarnation 1 through an object built for incarnation 0, and kill() returns normally. -/
+theorem C01_unknown_start_counterexample : ¬ NoWrongOwner_AnyReadability_Full cfg := by
+  intro H
+  have hlog : (run cfg (St.init 1000) witnessUnknownStart).log = [⟨.kill, 0, 7, [9], some 1, none⟩] := by decide
+  have hobj : (run cfg (St.init 1000) witnessUnknownStart).ps.objs[0]? = some ⟨7, none, none, false, false, 0⟩ := by
+    decide
+  obtain ⟨o, ho, _, hw, _⟩ := H 1000 (by decide) witnessUnknownStart
+    (by intro e he b hb; subst hb; simp [witnessUnknownStart] at he) ⟨.kill, 0, 7, [9], some 1, none⟩
+    (by rw [hlog]; exact List.mem_cons_self)
+  simp only at ho hw
+  rw [hobj] at ho
+  cases ho
+  exact absurd hw (by decide)
+
+/-- as soon as the new holder's stat can be read the same call is refused: the fresh `(7, t)` differs from
+    `(7, None)` -/
+example :
+    (step cfg (run cfg (St.init 1000) [.k (.spawn 7), .k (.hide 7 true), .c (.newObj 7), .k (.reap 7),
+        .k (.spawn 7), .k (.hide 7 false)]) (.c (.signal 0 .kill))).2 = .exc (.noSuchProcess 7) := by decide
+
 end Psutil.C01
